@@ -188,11 +188,14 @@ package motion
 
 //@ func (mp *MotionProcessor) canStartWriting
 //@   requires mp != nil && mp.wired()
+//@   modifies mp.log.previousTime, mp.log.previousEntry, mp.log.gLast, mp.log.gTime, mp.log.gPrinted, mp.log.gNow
 //@   ensures [C04] (result == nil) == (mp.window.activeNow && mp.recorder.canRec)
+//@   ensures mp.log.inv()
 
 //@ func (mp *MotionProcessor) recordPreTriggerFrames
 //@   requires mp != nil && mp.wired() && mp.frameLoop.inv()
 //@   requires mp.recorder.open && mp.recorder.inFile == 0 && !mp.recorder.wfault && mp.recorder.next <= mp.frameLoop.hs()
+//@   modifies mp.log.previousTime, mp.log.previousEntry, mp.log.gLast, mp.log.gTime, mp.log.gPrinted, mp.log.gNow
 //@   modifies elems(mp.frameLoop.orderedFrames), mp.recorder.next, mp.recorder.first, mp.recorder.inFile, mp.recorder.writes, mp.recorder.wfault
 //@   call WriteFrame#1 ghost seq = mp.frameLoop.hs() + ii
 //@   call WriteFrame#1 assert [C01] $1 == mp.frameLoop.frames[mp.frameLoop.slot(mp.frameLoop.hs() + ii)] && mp.frameLoop.seq(mp.frameLoop.slot(mp.frameLoop.hs() + ii)) == seq
@@ -205,9 +208,11 @@ package motion
 //@   ensures [C01,C02] result == nil ==> mp.recorder.inFile == mp.frameLoop.n() - mp.frameLoop.hs() && (mp.recorder.inFile == 0 ==> mp.recorder.next == old(mp.recorder.next))
 //@   ensures [C01,C02] result == nil ==> (mp.recorder.inFile > 0 ==> mp.recorder.first == mp.frameLoop.hs() && mp.recorder.next == mp.frameLoop.n())
 //@   ensures [C01] mp.recorder.writes == old(mp.recorder.writes) + mp.recorder.inFile
+//@   ensures mp.log.inv()
 
 //@ func (mp *MotionProcessor) startRecording
 //@   requires mp != nil && mp.wired() && mp.recState() && !mp.isRecording
+//@   modifies mp.log.previousTime, mp.log.previousEntry, mp.log.gLast, mp.log.gTime, mp.log.gPrinted, mp.log.gNow
 //@   modifies mp.isRecording, elems(mp.frameLoop.orderedFrames)
 //@   modifies mp.recorder.open, mp.recorder.inFile, mp.recorder.wfault, mp.recorder.starts, mp.recorder.startOK, mp.recorder.bg, mp.recorder.thresh
 //@   modifies mp.recorder.next, mp.recorder.first, mp.recorder.writes
@@ -220,13 +225,16 @@ package motion
 //@   ensures [C01,C02] result == nil ==> (mp.recorder.inFile > 0 ==> mp.recorder.first == mp.frameLoop.hs() && mp.recorder.next == mp.frameLoop.n())
 //@   ensures [C15] old(mp.recorder.startOK) ==> mp.recorder.bg == ref(mp.motionDetector.background) && mp.recorder.thresh == mp.motionDetector.tempThresh
 //@   ensures [C01] mp.recorder.writes == old(mp.recorder.writes) + (old(mp.recorder.startOK) ? mp.recorder.inFile : 0)
+//@   ensures mp.log.inv()
 
 //@ func (mp *MotionProcessor) stopRecording
 //@   requires mp != nil && mp.wired() && mp.frameLoop.inv() && mp.isRecording == mp.recorder.open
+//@   modifies mp.log.previousTime, mp.log.previousEntry, mp.log.gLast, mp.log.gTime, mp.log.gPrinted, mp.log.gNow
 //@   modifies mp.framesWritten, mp.writeUntil, mp.isRecording, mp.triggered, mp.frameLoop.oldest, mp.frameLoop.mark, mp.recorder.open, mp.recorder.stops, mp.recorder.stopOK
 //@   ensures [C12] !mp.isRecording && !mp.recorder.open && mp.frameLoop.inv()
 //@   ensures old(mp.isRecording) ==> mp.framesWritten == 0 && mp.writeUntil == 0 && mp.triggered == 0 && mp.frameLoop.mark == mp.frameLoop.n() && mp.recorder.stops == old(mp.recorder.stops) + 1
 //@   ensures !old(mp.isRecording) ==> mp.framesWritten == old(mp.framesWritten) && mp.writeUntil == old(mp.writeUntil) && mp.triggered == old(mp.triggered) && mp.frameLoop.mark == old(mp.frameLoop.mark) && mp.recorder.stops == old(mp.recorder.stops) && result == nil
+//@   ensures mp.log.inv()
 
 //@ func (mp *MotionProcessor) process
 //@   requires mp != nil && mp.PInv() && frame != nil && frame == mp.frameLoop.frames[mp.frameLoop.currentIndex]
@@ -260,9 +268,11 @@ package motion
 
 //@ func (mp *MotionProcessor) stopConstantRecorder
 //@   requires mp != nil && mp.wired() && mp.PInvC()
+//@   modifies mp.log.previousTime, mp.log.previousEntry, mp.log.gLast, mp.log.gTime, mp.log.gPrinted, mp.log.gNow
 //@   modifies mp.crFrames, mp.constantRecorder.open, mp.constantRecorder.stops, mp.constantRecorder.stopOK
 //@   ensures [C12,C13] mp.PInvC() && (mp.constantRecording ==> !mp.constantRecorder.open)
 //@   ensures [C13] mp.constantRecording ==> mp.constantRecorder.writes == old(mp.constantRecorder.writes)
+//@   ensures mp.log.inv()
 
 //@ func (mp *MotionProcessor) processConstantRecorder
 //@   requires mp != nil && mp.wired() && mp.PInvC() && 0 <= mp.maxFrames && frame != nil
@@ -313,6 +323,7 @@ package motion
 
 //@ func (mp *MotionProcessor) Reset
 //@   requires mp != nil && mp.PInv()
+//@   modifies mp.log.previousTime, mp.log.previousEntry, mp.log.gLast, mp.log.gTime, mp.log.gPrinted, mp.log.gNow
 //@   modifies mp.framesWritten, mp.writeUntil, mp.isRecording, mp.triggered, mp.run, mp.frameLoop.oldest, mp.frameLoop.mark, mp.recorder.open, mp.recorder.stops, mp.recorder.stopOK, mp.motionDetector.affectedByFCC, mp.motionDetector.count, mp.motionDetector.tempThresh, mp.motionDetector.backgroundFrames, mp.motionDetector.firstDiff, mp.motionDetector.epoch, mp.motionDetector.flooredFrames.currentIndex, mp.motionDetector.flooredFrames.bufferFull, mp.motionDetector.flooredFrames.oldest, mp.motionDetector.flooredFrames.base, mp.motionDetector.flooredFrames.mark, mp.motionDetector.diffFrames.currentIndex, mp.motionDetector.diffFrames.bufferFull, mp.motionDetector.diffFrames.oldest, mp.motionDetector.diffFrames.base, mp.motionDetector.diffFrames.mark
 //@   ghost_exit mp.run = old(mp.isRecording) ? 0 : old(mp.run)
 //@   ensures mp.wired()
@@ -320,14 +331,17 @@ package motion
 //@   ensures [C03] mp.recLen()
 //@   ensures [C04] mp.recRun()
 //@   ensures [C12,C17] mp.PInvC() && mp.PInvS()
-//@   ensures [C14] ncalls("Reset") == 1 && ncalls("stopRecording") == 1
+//@   ensures [C14,C09] ncalls("Reset") == 1 && ncalls("stopRecording") == 1
+//@   ensures [C09,C14] mp.motionDetector.flooredFrames.n() == 0 && mp.motionDetector.diffFrames.n() == 0 && mp.motionDetector.epoch == 0 && mp.motionDetector.backgroundFrames == 0
 //@   ensures [C12] mp.recorder.stops == old(mp.recorder.stops) + (old(mp.isRecording) ? 1 : 0) && mp.recorder.writes == old(mp.recorder.writes)
 
 //@ func (mp *MotionProcessor) GetRecentFrame
 //@   allocates
 //@   requires mp != nil && mp.wired() && mp.frameLoop.inv()
 //@   requires forall i int :: 0 <= i && i < mp.frameLoop.size ==> cptvframe.rowsOf(mp.frameLoop.frames[i])
+//@   modifies mp.log.previousTime, mp.log.previousEntry, mp.log.gLast, mp.log.gTime, mp.log.gPrinted, mp.log.gNow
 //@   ensures result0 == mp.CurrentFrame && fresh(result1)
+//@   ensures mp.log.inv()
 
 //@ func (mp *MotionProcessor) Process
 //@   requires mp != nil && mp.PInv() && mp.parseFrame != nil
